@@ -200,8 +200,9 @@ def prop_thdm(case):
     if not (10.0 <= m0 <= 1e4):
         discard("target-out-of-range")
         return None
-    if vary not in ("mh", "mH") and p["mh"] == p["mH"]:
-        # the base point itself is degenerate (m_h = m_H exactly): the mixing angle the model derives from the
+    if vary not in ("mh", "mH") and abs(p["mH"] - p["mh"]) <= 1e-9 * p["mH"]:
+        # the base point itself is degenerate (m_h = m_H exactly, or to within rounding: the angle error is
+        # ~1e-16 m_H^2/(m_H^2 - m_h^2)): the mixing angle the model derives from the
         # diagonalisation is arbitrary there; that coincidence is explored by the paths that move m_h or m_H
         discard("base-point-mh=mH")
         return None
@@ -324,25 +325,37 @@ def prop_mssm(case):
 
 
 def known_match(entry, case, fail):
+    """an entry matches a failure iff the coincidence class is listed AND every reported problem is of a listed kind
+    ('what'), on a listed component, below the entry's deviation cap, and - for non-finite values - only at the
+    offsets the entry names; anything else about the same coincidence is still a violation"""
     m = entry.get("match", {})
     co = fail.detail.get("coincidence", "")
-    if co in ([m["coincidence"]] if "coincidence" in m else m.get("coincidences", [])) or \
-            any(co.startswith(pre) for pre in m.get("coincidence_prefixes", [])):
-        comps = set(m.get("components", []))
-        probs = fail.detail.get("problems", [])
-        if "max_deviation" in m and any(q.get("deviation/|a|", 0) > m["max_deviation"] or q.get("what") != "discontinuous"
-                                         for q in probs):
+    if not (co in ([m["coincidence"]] if "coincidence" in m else m.get("coincidences", [])) or
+            any(co.startswith(pre) for pre in m.get("coincidence_prefixes", []))):
+        return False
+    if "vary" in m and fail.detail.get("vary") not in m["vary"]:
+        return False
+    comps = set(m.get("components", []))
+    kinds = set(m.get("what", ["discontinuous", "not finite"]))
+    if "max_deviation" in m and "what" not in m:
+        kinds = {"discontinuous"}
+    for q in fail.detail.get("problems", []):
+        if q.get("component") not in comps or q.get("what") not in kinds:
             return False
-        return all(q.get("component") in comps for q in probs)
-    return False
+        if q.get("what") == "discontinuous" and "max_deviation" in m and q.get("deviation/|a|", 0) > m["max_deviation"]:
+            return False
+        if q.get("what") == "not finite" and "nonfinite_only_at" in m:
+            if any(d not in m["nonfinite_only_at"] for d, _ in q.get("at", [])) or len(q.get("at", [])) >= 4:
+                return False
+    return True
 
 
 def subchecks(ctx):
     return [
-        Sub("thdm", thdm_case(), prop_thdm, {"quick": 120, "thorough": 5000}, nontrivial=lambda c: True,
+        Sub("thdm", thdm_case(), prop_thdm, {"quick": 450, "thorough": 5000}, nontrivial=lambda c: True,
             classes=lambda c: ["vary:" + c["vary"], "kind:" + c["target"]["kind"]], known_match=known_match,
             rule="THDM mass-basis point, one scalar mass moved through a coincidence target"),
-        Sub("mssm", mssm_case(), prop_mssm, {"quick": 90, "thorough": 2500}, nontrivial=lambda c: True,
+        Sub("mssm", mssm_case(), prop_mssm, {"quick": 200, "thorough": 2500}, nontrivial=lambda c: True,
             classes=lambda c: ["vary:" + c["vary"], "kind:" + c["target"]["kind"]], known_match=known_match,
             rule="MSSM on-shell point, one mass parameter moved through a coincidence target"),
     ]
